@@ -109,6 +109,15 @@ func (s sortedResources) Less(i, j int) bool {
 		v := s.col[i].Get(r)
 		v2 := s.col[j].Get(r)
 
+		// Some implementations return an untyped nil for null values.
+		if attr, ok := s.col[i].Attrs()[r]; ok && v == nil {
+			v = GetZeroValue(attr.Type, attr.Nullable)
+		}
+
+		if attr, ok := s.col[j].Attrs()[r]; ok && v2 == nil {
+			v2 = GetZeroValue(attr.Type, attr.Nullable)
+		}
+
 		// Here we return true if v < v2.
 		// The "!= inverse" part acts as a XOR operation so that
 		// the opposite boolean is returned when inverse sorting
